@@ -322,7 +322,7 @@ def pick_cc(cases, recs, tier, rng):
     for want in (2, 1):
         for c in g:
             u = set(c.desc["used"].split("+"))
-            if len(u - covered) >= want and len(chosen) < budget * 3 // 4:
+            if len(u - covered) >= want and len(chosen) < budget * 2:
                 chosen.append(c)
                 covered |= u
     cs = set(chosen)
@@ -344,7 +344,14 @@ def run(tier, seed):
                    "families of lib_pytexts.py, files of the interpreter's library.  non-trivial = compilation passed the parser "
                    "(reached the transforms) or the text is not valid Python."}
     jobs = min(core.NCPU, 16)
+    stage = cov["stage_wall_s"] = {}
+    ts = [time.time()]
+
+    def lap(name):
+        stage[name] = round(time.time() - ts[0], 1)
+        ts[0] = time.time()
     tl = run_tlc_parallel(tier, seed, cov)
+    lap("tlc_model_grammar_mutate")
     gram = gram_cases(tl["gram"], cov)
     cases = [c for c, _ in gram]
     cases += mut_cases(tl["mut"], gram, tier, rng, cov)
@@ -356,6 +363,7 @@ def run(tier, seed):
 
     # P: CPython's verdict (child process)
     V = T.cpython_verdicts([c.data for c in cases], os.path.join(wd, "p"))
+    lap("cpython_oracle")
     for c in cases:
         c.valid, c.why_invalid, c.typedop, c.feats, c.tags = V[c.id]
         c.desc["valid"] = bool(c.valid)
@@ -373,6 +381,7 @@ def run(tier, seed):
     items.sort(key=lambda it: -len(it["b64"]))     # big texts first, spread over the shards
     limit = 25 if tier == "quick" else 60          # CPU seconds per text
     recs = LP.compile_texts(items, os.path.join(wd, "cy"), jobs=jobs, per_text_timeout=limit, shard_timeout=6000)
+    lap("compile")
     missing = [c.id for c in cases if c.id not in recs]
     if missing:
         core.die("C43: %d texts without a record" % len(missing))
@@ -394,6 +403,7 @@ def run(tier, seed):
         cov["anomalies_not_reproduced_in_isolation"] = sum(1 for r in fresh.values() if not crashy(r))
         recs.update(fresh)
 
+    lap("isolation_reruns")
     # the C compiler's answer on a sample of the generated files (g++ on C++ output in the thorough tier)
     by_id = {c.id: c for c in cases}
     chosen = pick_cc(cases, recs, tier, rng)
@@ -426,6 +436,7 @@ def run(tier, seed):
         cases = cases + cpp_cases
         by_id.update({c.id: c for c in cpp_cases})
 
+    lap("c_compiler")
     # S: spec/Pipeline_Trace.tla judges every record
     kinds_index = {}
     trecs = [trace_record(c, recs[c.id], kinds_index, cc.get(c.id, ("unchecked", ""))[0]) for c in cases]
@@ -470,6 +481,7 @@ def run(tier, seed):
     for nid_, name in demo.items():
         if nid_ not in bad:
             core.die("binding demonstration: corrupted record (%s) was accepted by Pipeline_Trace.tla" % name)
+    lap("tlc_trace")
     cov["binding_demo_rejected"] = len(demo)
     cov["states"] += tr.generated
     cov["distinct_states"] += tr.distinct
